@@ -1,5 +1,6 @@
 From Coq Require Import ZArith.
 From Stam Require Import Base.Tac Model.Offset Model.Utf8 Spec.OffsetSpec Proofs.Offset Proofs.Utf8 Props.C04.
+From Stam Require Model.Store.
 Check (C04_resource_accept_iff : forall len o,
   resource_ts len o = match spec_accept len o with Some t => Ok t | None => Err end).
 Check (C04_relative_accept_iff : forall p o, fst p <= snd p ->
@@ -17,3 +18,6 @@ Print Assumptions C04_chain_inside.
 Print Assumptions C04_text_exact.
 Print Assumptions C04_report_resource.
 Print Assumptions C04_report_relative.
+Check (C04_store_selections_inside : forall ops r rs rg,
+  Store.get_res (Store.run ops) r = Some rs -> In rg (Store.r_sels rs) -> fst rg <= snd rg /\ snd rg <= Store.r_len rs).
+Print Assumptions C04_store_selections_inside.
